@@ -43,6 +43,22 @@ Definition tr_req_of_kind (kind : Z) : option tr_req :=
   else if kind =? 17 then Some {| rq_scheme := "https+insecure"; rq_trusted := true |}
   else None.
 
+(* round 6, timed cases: a source term with 11 fields carries [7] the URL's seconds= parameter
+   (10^9+1 = none, 10^9+2 = not a number), [8] the server's delay in ms, [9] -seconds, [10] -timeout *)
+Definition is_timed (t : term) : bool := (11 <=? List.length (gl t))%nat.
+Definition allowance_of (t : term) : Z :=
+  let u := gz (gn t 7) in
+  client_allowance_ms (gz (gn t 9)) (gz (gn t 10)) (if 1000000000 <? u then None else Some u).
+
+Fixpoint allow_lines (grp : Z) (idx : nat) (l : list term) : list string :=
+  match l with
+  | [] => []
+  | t :: r =>
+      (if is_timed t && (11 <=? gz (gn t 0))
+       then ["allow " ++ string_of_Z grp ++ ":" ++ string_of_Z (Z.of_nat idx) ++ "=" ++ string_of_Z ((allowance_of t + 250) / 500)]
+       else []) ++ allow_lines grp (S idx) r
+  end.
+
 (* outcome kinds of harness/cmd/c16.go -> answers of the fetcher / of fetch() / of CheckValid.
    [conn e] = the transport connected the request of source e = grp*10^6+idx (only asked for kinds 11..) *)
 Definition source_of (conn : Z -> bool) (grp : Z) (idx : nat) (t : term) : source tprof :=
@@ -62,6 +78,7 @@ Definition source_of (conn : Z -> bool) (grp : Z) (idx : nat) (t : term) : sourc
             else if kind =? 9 then FtProfile p "http://c16host/x"
             else if kind <=? 10 then FtErr "http"
             else if negb (conn (grp * 1000000 + Z.of_nat idx)) then FtErr "tls"
+            else if is_timed t && (allowance_of t <=? gz (gn t 8)) then FtErr "timeout"
             else if (kind =? 12) || (kind =? 17) then FtErr "http"
             else if kind =? 16 then FtErr "garbage"
             else FtProfile p "http://real/x" in
@@ -191,7 +208,8 @@ Definition run_C16 (i : term) : term :=
         (if String.eqb st "ok" then of_ss (g_tail o) else TL []); TL []]
   else
   TL [TS (status_str (g_status o)); of_otprof (g_src o); of_otprof (g_base o); of_bool (g_save o);
-      of_ss (g_err_src o); of_ss (g_err_base o); of_ss (g_tail o); TL []].
+      of_ss (g_err_src o); of_ss (g_err_base o); of_ss (g_tail o);
+      of_ss (allow_lines 0 0 (gl (gn i 0)) ++ allow_lines 1 0 (gl (gn i 1)))].
 
 (* model vs implementation: status, save flag, error lines, tail messages and repeated-fetch list
    exactly; the two profiles up to toy_eqv (sample type, contributor order, weight per key) -- the
@@ -250,6 +268,13 @@ Definition hdr_matches (hs : list (Z * string)) (obs : term) : bool :=
 
 Definition hdr_C16 (i o : term) : bool :=
   if is_pprof_op i then true else
+  (* round 6: the time the http.Client allowed each timed request is the modelled allowance *)
+  (if existsb is_timed (gl (gn i 0))
+   then match o with
+        | TL [_; _; _; _; _; _; _; mu] => term_eqb mu (of_ss (allow_lines 0 0 (gl (gn i 0)) ++ allow_lines 1 0 (gl (gn i 1))))
+        | _ => false
+        end
+   else true) &&
   let hs := fetched_hdrs (sources_of (conn_alone i) 0 0 (gl (gn i 0))) (gl (gn i 0)) in
   let hb := fetched_hdrs (sources_of (conn_alone i) 1 0 (gl (gn i 1))) (gl (gn i 1)) in
   match o with
